@@ -164,7 +164,17 @@ def _generic_job(cfg) -> Obligation:
             s = SR.untoken(x) if SR.CTX is not None else None
             return s if s is not None else builtins.float(x)
 
+    class _Rejected(Exception):
+        pass
+
     def fn():
+        try:
+            return fn_()
+        except _Rejected as r:
+            fn.why = str(r)
+            return False
+
+    def fn_():
         env = MM.Env(sym=True)
         v = SR.real("v")
         SR.assume(z3.And(v.t >= -5000, v.t <= 5000))
@@ -175,7 +185,11 @@ def _generic_job(cfg) -> Obligation:
             with patched([], {}, attrs):
                 for nm, s_ in list(env.symbols.items()):
                     SR.assume(z3.And(SR.T(s_) > 0, SR.T(s_) < 1000))
-                M = lambda text: mod_mass(Mod(text, mult), monoisotopic=mono)
+                def M(text):
+                    try:
+                        return mod_mass(Mod(text, mult), monoisotopic=mono)
+                    except ValueError as err:       # a spelling of the corpus that must resolve is rejected
+                        raise _Rejected(f"{text!r} -> {type(err).__name__}")
                 el = lambda e: env.el(e, mono)
                 # a prefixed signed number is that mass shift
                 for pref in ("U:", "UNIMOD:", "M:", "MOD:", "X:", "R:", "G:", "Obs:"):
@@ -213,6 +227,7 @@ def main(p):
     ms = lambda n: (MONOSACCHARIDES_DB.get_entry_by_name(n).mono_mass if mono else MONOSACCHARIDES_DB.get_entry_by_name(n).avg_mass)
     ac = UNIMOD_DB.get_entry_by_name("Acetyl").mono_mass if mono else UNIMOD_DB.get_entry_by_name("Acetyl").avg_mass
     exp = {f"{q}{v:+}": v for q in ("U:", "UNIMOD:", "M:", "MOD:", "X:", "R:", "G:", "Obs:")}
+    exp.update({f"{v:+}": v, f"{v:+}#s2": v, "Acetyl#g1(0.75)": ac, "Glycan:Hex": ms("Hex"), "formula:C2H3": 2*el("C")+3*el("H")})
     exp.update({"Formula:C2H3": 2*el("C")+3*el("H"), "Formula:[13C2]N": 2*el("13C")+el("N"), "Formula:H-2O": -2*el("H")+el("O"),
                 "Glycan:HexNAc2Hex3": 2*ms("HexNAc")+3*ms("Hex"), "Acetyl|Formula:C2H3": ac, "INFO:note|Acetyl": ac, "Acetyl#g1": ac, "#g1": 0.0,
                 "INFO:note|Formula:C2H3|Acetyl": 2*el("C")+3*el("H")})
@@ -228,6 +243,7 @@ def main(p):
         res = native_call(code, {"mono": mono, "mult": mult, "v": model.get("v", 1.5)})
         return res["violated"], res["detail"], None
 
+    fn.why = ""
     return run_e2(f"E2/generic-forms/{'mono' if mono else 'avg'}/x{mult}",
                   "prefixed signed number = that shift; Formula/Glycan/Obs = the mass of what they spell; '|' first resolvable; '#' tags neutral; multiplier multiplies",
                   fn, functions=FUNCS[4:], bounds="value in [-5000,5000]; element, monosaccharide and Unimod entry masses symbolic", replay=replay, budget_s=60)
